@@ -161,7 +161,7 @@ class WorldProp(Prop):
             import hashlib
             import json
             h = int(hashlib.sha1(json.dumps(sc, sort_keys=True, default=str).encode()).hexdigest()[:8], 16)
-            if (h % 1000) / 1000.0 < self.via_main_share:
+            if (h % 1000) / 1000.0 < self.via_main_share or sc.get("prefer_main"):
                 sc = dict(sc, argv=argv)      # this session goes through the real main(argv)
                 req["via_main"] = True
         res = sim.run(sc, self.agents(req))
